@@ -273,18 +273,29 @@ pub struct SteadyCase {
     gaps_ms: Vec<u64>,
     stall: Vec<u64>,
     via_inc: bool,
+    /// position at which the steady progress starts (the estimator is reset there)
+    #[serde(default)]
+    offset: u64,
 }
 
 fn run_steady(c: &SteadyCase) -> CaseResult {
     let _clk = clock::Armed::new();
     let pb = ProgressBar::with_draw_target(Some(u64::MAX), ProgressDrawTarget::hidden());
-    let mut pos = 0u64;
+    let mut pos = c.offset;
+    if c.offset > 0 {
+        // start from a large position: everything before reset_eta() is to be ignored
+        clock::advance(Duration::from_millis(7));
+        pb.set_position(c.offset);
+        clock::advance(Duration::from_millis(7));
+        pb.tick();
+        pb.reset_eta();
+    }
     let rate = c.rate_per_ms as f64 * 1000.0;
     for (i, g) in c.gaps_ms.iter().enumerate() {
         let g = (*g).max(1);
         clock::advance(Duration::from_millis(g));
         let Some(d) = c.rate_per_ms.checked_mul(g) else { break };
-        if pos.checked_add(d).map_or(true, |p| p > 1 << 62) {
+        if pos.checked_add(d).map_or(true, |p| p > (1 << 62) + (1 << 61)) {
             break;
         }
         pos += d;
@@ -319,6 +330,7 @@ fn run_steady(c: &SteadyCase) -> CaseResult {
     v.label_if(v.nontrivial, "irregular_cadence");
     v.label_if(!c.stall.is_empty(), "stall_queried");
     v.label_if(c.gaps_ms.iter().any(|g| *g >= 60_000), "long_gap");
+    v.label_if(c.offset > 1 << 53, "offset_beyond_2_53");
     Ok(v)
 }
 
@@ -329,8 +341,9 @@ fn steady_strategy(tier: Tier) -> BoxedStrategy<SteadyCase> {
         proptest::collection::vec(gap_strategy(), 1..n),
         proptest::collection::vec(gap_strategy(), 0..8),
         any::<bool>(),
+        prop_oneof![3 => Just(0u64), 1 => 1u64..1_000_000, 2 => (40u32..63).prop_map(|k| 1u64 << k)],
     )
-        .prop_map(|(rate_per_ms, gaps_ms, stall, via_inc)| SteadyCase { rate_per_ms, gaps_ms, stall, via_inc })
+        .prop_map(|(rate_per_ms, gaps_ms, stall, via_inc, offset)| SteadyCase { rate_per_ms, gaps_ms, stall, via_inc, offset })
         .boxed()
 }
 
@@ -497,7 +510,7 @@ pub fn property() -> Property {
                 cases: |t| t.pick(4_000, 800_000),
                 run: run_steady,
                 signature: no_signature,
-                essential: &["irregular_cadence", "stall_queried", "long_gap"],
+                essential: &["irregular_cadence", "stall_queried", "long_gap", "offset_beyond_2_53"],
                 workers: w,
                 decode: None,
             }),
